@@ -43,7 +43,7 @@ def BOUNDS(tier):
 
 
 def REQUIRED_COVER(tier):
-    return {'kind:int', 'kind:ext_in', 'kind:ext_out', 'init:none', 'init:all5', 'init:3refs', 'extra:2', 'body:inline', 'body:ref', 'init:inline', 'init:ref', 'placement:alt',
+    return {'kind:int', 'kind:ext_in', 'kind:ext_out', 'init:none', 'init:all5', 'init:3refs', 'extra:2', 'body:inline', 'body:ref', 'body:exotic', 'init:inline', 'init:ref', 'placement:alt',
             'anycast', 'wrapper:StateInit', 'wrapper:CurrencyCollection', 'wrapper:WalletV3Data', 'wrapper:WalletV4Data', 'wrapper:NftItemData', 'wrapper:NftItemSaleData', 'wrapper:NftItemSaleFees', 'wrapper:HighloadWalletData', 'wrapper:WalletMessage', 'wrapper:HashUpdate',
             'wrapper:TickTock', 'wrapper:AccountStatus', 'tight:refs', 'isolation', 'edit-history'}
 
@@ -132,7 +132,15 @@ def enc_init(i):
     return bits, refs
 
 
+def exotic_bodies(seed):
+    """bodies that are exotic cells (a library reference, a Merkle proof): they exist only as cells of their own, i.e. by reference"""
+    tree = RC.RCell('1011', (RC.RCell('1'), RC.prune(RC.RCell('0110', (RC.RCell('01'),)), 1)))
+    return [RC.library(filler(seed, 'c15-libbody', 32)), RC.mproof(tree)]
+
+
 def body_cell(bb, br, seed):
+    if bb < 0:
+        return exotic_bodies(seed)[-bb - 1]         # bb = -1, -2: the exotic bodies
     pat = ''.join(format(x, '08b') for x in filler(seed, 'c15-body', 128))
     return RC.RCell(pat[:bb], tuple(RC.RCell(format(j + 1, '04b')) for j in range(br)))
 
@@ -142,7 +150,7 @@ def placements(h, i, body, seed):
     hb, hr = enc_header(h, seed)
     out = []
     for init_inline in ((None,) if i is None else (True, False)):
-        for body_inline in (True, False):
+        for body_inline in ((True, False) if not body.special else (False,)):
             bits, refs = hb, hr
             if i is None:
                 bits += '0'
@@ -179,7 +187,7 @@ def lm_spec(h, i, body, seed):
         info = ('ext_in', la(h['src']), la(h['dest']), h['fee'])
     else:
         info = ('ext_out', la(h['src']), la(h['dest']), h['lt'], h['at'])
-    return (info, lm_init_spec(i), (body.bits, tuple(r.hash().hex() for r in body.refs)))
+    return (info, lm_init_spec(i), (body.bits, tuple(r.hash().hex() for r in body.refs), bool(body.special)))
 
 
 def lm_init_spec(i):
@@ -238,7 +246,7 @@ def lm_ref(rc):
         init = lm_init_ref(e['value'])
         placement_init = e['@c']
     b = v['body']['value']
-    body = (b.bits, tuple(r.hash().hex() for r in b.refs))
+    body = (b.bits, tuple(r.hash().hex() for r in b.refs), bool(b.special))
     return (info, init, body), (v['init']['value']['@c'] if v['init']['@c'] == 'just' else None, v['body']['@c'])
 
 
@@ -271,7 +279,7 @@ def lm_lib(m):
         info = ('ext_in', la(i.src), la(i.dest), i.import_fee)
     else:
         info = ('ext_out', la(i.src), la(i.dest), i.created_lt, i.created_at)
-    return (info, lm_init_lib(m.init), (m.body.bits.to01(), tuple(r.hash.hex() for r in m.body.refs)))
+    return (info, lm_init_lib(m.init), (m.body.bits.to01(), tuple(r.hash.hex() for r in m.body.refs), bool(getattr(m.body, 'is_exotic', False))))
 
 
 def lm_lib_addr(a):
@@ -361,7 +369,7 @@ def case_message(rec, hi, ii, bb, br):
         rec.covered('extra:2')
     if any(a[0] == 'std' and a[3] for a in (h['src'], h['dest'])):
         rec.covered('anycast')
-    what = f'message header#{hi} ({h["k"]}) init#{ii} body {bb} bits/{br} refs'
+    what = f'message header#{hi} ({h["k"]}) init#{ii} body {bb} bits/{br} refs' if bb >= 0 else f'message header#{hi} ({h["k"]}) init#{ii} body = exotic cell #{-bb} (type {body.type})'
     # oracle honesty: the schema decoder reads every placement the reference encoder writes
     for name, rc in pls:
         got, _ = lm_ref(rc)
@@ -461,6 +469,12 @@ def shard_messages(rec, hi, part, parts):
                 if n % parts != part:
                     continue
                 case_message(rec, hi, ii, bb, br)
+    for ii in (0, 1, 29, 32):
+        for bb in (-1, -2):
+            n += 1
+            if n % parts == part and ii < len(inits()):
+                case_message(rec, hi, ii, bb, 0)
+                rec.covered('body:exotic')
     if hi == 2 and part == 0:
         rec.sample({'header': headers()[2], 'init': inits()[29], 'body': '1000 bits / 2 refs', 'checked': 'serialize ok; schema decode == message; parse == message; other placements parse'})
 
